@@ -468,7 +468,9 @@ def parseLine(raw, eols=(CRLF, LF, CR ), kind="event line"):
         index, eol = findEol(raw, eols)  # earliest eol, not found index == -1
 
         if index < 0:  # not found
-            if len(raw) > MAX_LINE_SIZE:
+            # a trailing CR may yet become a CRLF so it is not line content yet
+            held = 1 if CRLF in eols and raw.endswith(CR) else 0
+            if len(raw) - held > MAX_LINE_SIZE:
                 raise LineTooLong(kind)
             else:
                 (yield None)  # more data needed not done parsing header
@@ -497,7 +499,9 @@ def parseLeader(raw, eols=(CRLF, LF), kind="leader header line", headers=None):
         index, eol = findEol(raw, eols)  # earliest eol, not found index == -1
 
         if index < 0:  # not found
-            if len(raw) > MAX_LINE_SIZE:
+            # a trailing CR may yet become a CRLF so it is not line content yet
+            held = 1 if CRLF in eols and raw.endswith(CR) else 0
+            if len(raw) - held > MAX_LINE_SIZE:
                 raise LineTooLong(kind)
             else:
                 (yield None)  # more data needed not done parsing header
